@@ -18,7 +18,7 @@
 
    Mailboxes only grow at the tail within a step (relation dq through every kernel operation, by the generic frame theorem
    of Kernel.Frame), so "has one more such message afterwards" can be read off the operation that delivers it. *)
-From MV Require Import Lib.ListX Kernel.Model Kernel.Lifecycle Kernel.Status Kernel.Registry Kernel.Frame Kernel.Queue Kernel.Watch Kernel.Terminate.
+From MV Require Import Lib.ListX Kernel.Model Kernel.Lifecycle Kernel.Status Kernel.Registry Kernel.Frame Kernel.Queue Kernel.Watch Kernel.Launch Kernel.Terminate Kernel.Restart.
 Open Scope Z_scope.
 
 (* ---------- inside one step: in-flight message untouched, system queue only appended to ---------- *)
@@ -325,6 +325,67 @@ Proof.
   exists (w_susp false (w_inflight None b)). split.
   - rewrite get_normalize. rewrite (get_upd_actor_same s0 v _ _ G0). reflexivity.
   - cbn. repeat split; auto.
+Qed.
+
+(* (4) Restart: the step in which a living actor takes a restart request shows OnRestarting handled by the present instance
+   as its first Handled observation, leaves the actor restarting (it waits for its children) or alive again (the restart
+   completed within the step: Kernel.Restart says what that shows, Kernel.Fresh that the instance is a new one), and keeps
+   every user message that was in flight or queued, in order, at the front of its mailbox: "Restart replaces the instance ...
+   and then handles the queued messages" *)
+Theorem restart_request_applied s v b e s' o :
+  get s v = Some b -> a_inflight b = Some (MS e) -> e_msg e = SRestart -> a_st b = Alive -> is_sys (a_tok b) = false ->
+  kstep roles s (LRun (Z.of_nat v)) = Some (s', o) ->
+  exists b', get s' v = Some b' /\ a_tok b' = a_tok b /\ (a_st b' = Restarting \/ a_st b' = Alive) /\
+    hd_error (handled o) = Some (OH (a_tok b) (a_inst b) TRG 0%nat rNone) /\
+    exists app, seq b' = seq b ++ app.
+Proof.
+  intros Hb Hi He Hst Hsys Hk. cbn [kstep] in Hk. rewrite Nat2Z.id in Hk.
+  rewrite (run_actor_inner roles s v b (MS e) Hb Hi) in Hk.
+  set (s0 := upd_actor s v (w_inflight None)) in *.
+  assert (G0 : get s0 v = Some (w_inflight None b)) by (apply get_upd_actor_same; exact Hb).
+  destruct (run_inner roles s0 v (MS e)) as [s1 o1] eqn:Ein. inversion Hk; subst s' o. clear Hk.
+  (* the user messages *)
+  pose proof (uq_run_inner roles _ _ _ _ _ Ein) as UQ.
+  destruct (uq_seq _ _ v _ UQ G0) as (bq & app & Gq & Sq).
+  assert (S0 : seq (w_inflight None b) = seq b).
+  { unfold seq, inflight_user. rewrite Hi. reflexivity. }
+  rewrite S0 in Sq.
+  (* status, address and the first Handled observation *)
+  assert (X : exists b1, get s1 v = Some b1 /\ a_tok b1 = a_tok b /\ (a_st b1 = Restarting \/ a_st b1 = Alive) /\
+                         hd_error (handled o1) = Some (OH (a_tok b) (a_inst b) TRG 0%nat rNone)).
+  { revert Ein. unfold run_inner, process_sys. rewrite G0, He. cbn [a_st w_inflight a_tok]. rewrite Hst.
+    set (sa := upd_actor s0 v (w_st Restarting)).
+    assert (Ga : get sa v = Some (w_st Restarting (w_inflight None b))) by (apply get_upd_actor_same; exact G0).
+    set (sb := deliver_sys sa (a_tok b) (a_tok b) SSuspend).
+    destruct (obj_of _ _ v _ (keep_deliver_sys sa (a_tok b) (a_tok b) SSuspend) (id_deliver_sys sa (a_tok b) (a_tok b) SSuspend) Ga) as (a2 & G2 & T2 & I2 & S2).
+    cbn [a_tok a_inst a_st w_st w_inflight] in T2, I2, S2.
+    destruct (handle roles sb v TRG 0%nat (e_snd e)) as [[s3 o3] p3] eqn:E3.
+    assert (Hs2 : is_sys (a_tok a2) = false) by (rewrite T2; exact Hsys).
+    destruct (handle_one roles sb v a2 TRG (e_snd e) s3 o3 p3 G2 Hs2 ltac:(intros n; discriminate) E3) as [O3 P3].
+    rewrite (P3 ltac:(rewrite S2; reflexivity)). unfold bind.
+    destruct (obj_handle roles _ _ _ _ _ _ _ _ _ G2 E3) as (a3 & G3 & T3 & I3 & S3). rewrite G3.
+    destruct (terminate_all s3 (a_tok a3) (a_children a3) false) as [s4 o4] eqn:E4.
+    destruct (obj_of _ _ v a3 (keep_terminate_all _ _ _ _ _ _ E4) (id_terminate_all _ _ _ _ _ _ E4) G3) as (a4 & G4 & T4 & I4 & S4).
+    destruct (try_restarted roles s4 v (e_snd e)) as [[s5 o5] p5] eqn:E5.
+    destruct (obj_try_restarted roles _ _ _ _ _ _ _ G4 E5) as (a5 & G5 & T5 & S5).
+    assert (ST5 : a_st a5 = Restarting \/ a_st a5 = Alive).
+    { destruct S5 as [[_ S5]|[_ S5]]; [left; rewrite S5, S4, S3, S2; reflexivity|right; exact S5]. }
+    assert (HD : forall rest, hd_error (handled ((o3 ++ o4 ++ o5) ++ rest)) = Some (OH (a_tok b) (a_inst b) TRG 0%nat rNone)).
+    { intros rest. rewrite !handled_app, O3, T2, I2. reflexivity. }
+    destruct p5.
+    - destruct (crashed s5).
+      + intros H; inversion H; subst. exists a5. split; [exact G5|]. split; [congruence|]. split; [exact ST5|].
+        rewrite <- (app_nil_r (o3 ++ o4 ++ o5)). apply HD.
+      + destruct (report_abnormal roles s5 v) as [[s6 o6] p6] eqn:E6. intros H; inversion H; subst.
+        destruct (keep_report_abnormal roles _ _ _ _ _ E6 v a5 G5) as (a6 & G6 & S6 & (T6 & _)).
+        exists a6. split; [exact G6|]. split; [congruence|]. split; [rewrite S6; exact ST5|apply HD].
+    - intros H; inversion H; subst. exists a5. split; [exact G5|]. split; [congruence|]. split; [exact ST5|].
+      rewrite <- (app_nil_r (o3 ++ o4 ++ o5)). apply HD. }
+  destruct X as (b1 & G1 & T1 & ST1 & HD1).
+  rewrite get_normalize, G1 in Gq. cbn in Gq. inversion Gq; subst bq.
+  exists (pop1 b1). split; [rewrite get_normalize, G1; reflexivity|].
+  destruct (pop1_id b1) as (Tp & _). split; [congruence|]. split; [rewrite pop1_st; exact ST1|]. split; [exact HD1|].
+  exists app. exact Sq.
 Qed.
 
 (* (3) Stop: the terminate request makes the actor terminating (or terminated at once), under its address *)
